@@ -1,3 +1,4 @@
+import copy
 from abc import ABCMeta, abstractmethod
 from collections import namedtuple
 from typing import Any, Callable, Dict, List, Type
@@ -170,7 +171,13 @@ class CollectionAttrMutator(metaclass=ABCMeta):
             self.collection = self._create_collection()
             self.add_items(items)
             return self
-        if self.collection and self.prepare_item:
+        if self.collection and self.attr_spec.prepare_item:
+            # Normalise a copy: the incoming collection belongs to the caller.
+            self.collection = (
+                copy.copy(self.collection)
+                if type(self.collection) in (list, dict, set)
+                else protect_via_deepcopy(self.collection)
+            )
             self._prepare_items()
         return self
 
